@@ -22,6 +22,15 @@ pub fn corpus(seed: u64, n_generated: usize) -> Vec<(String, String)> {
     for pc in draw_programs(seed ^ 0x11, &profiles, n_generated) {
         out.push((format!("gen{}", pc.index), pc.source));
     }
+    // modules derived from the full surface grammar (models, member types, morphisms, enums, named
+    // arguments), without and with deliberate semantic noise
+    for (i, tape) in crate::pt::draw_tapes(seed ^ 0x6772616d, n_generated / 2, 500).into_iter().enumerate() {
+        let noise = [0usize, 0, 12, 5][i % 4];
+        let text = crate::gram::gen_module_opts(&tape, noise, i % 8 == 7);
+        if text.len() <= 6000 {
+            out.push((format!("gram{}", i), text));
+        }
+    }
     for dir in ["eqlog-test-compile/error-test-source", "eqlog-test-eval/src"] {
         let root = Path::new(util::REPO).join(dir);
         for f in util::walk(&root) {
@@ -465,7 +474,7 @@ pub fn run_c11(tier: &str, seed: u64) -> campaign::CampaignResult {
         }
     }
     ev.extra.insert("corpus_files".into(), json!(corp.len()));
-    ev.rule = "inputs = corpus file (generated valid programs, every .eql under eqlog-test-compile/error-test-source and eqlog-test-eval/src) with 1-3 mutations (token delete/duplicate/swap/replace, truncation at several boundary classes, trailing newline removed/doubled, LF->CRLF for all/some lines, non-ASCII characters in comments/identifiers/stand-alone, // inside comments, tabs, BOM, empty/blank/comment-only files, very long lines, lone CR); valid UTF-8, <= 8 KB; non-trivial = input differs from every corpus file and is rejected with a well-formed diagnostic, distinct by (mutation kinds, first diagnostic line)".into();
+    ev.rule = "inputs = corpus file (programs of the typed generator, modules derived from the full surface grammar incl. models/member types/morphisms with and without semantic noise, every .eql under eqlog-test-compile/error-test-source and eqlog-test-eval/src) with 1-3 mutations (token delete/duplicate/swap/replace, truncation at several boundary classes, trailing newline removed/doubled, LF->CRLF for all/some lines, non-ASCII characters in comments/identifiers/stand-alone, // inside comments, tabs, BOM, empty/blank/comment-only files, very long lines, lone CR); valid UTF-8, <= 8 KB; non-trivial = input differs from every corpus file and is rejected with a well-formed diagnostic, distinct by (mutation kinds, first diagnostic line)".into();
     ev.assumptions = vec!["a time-out (120 s) is inconclusive, never a violation".into()];
     ev.violations = violations as u64;
     ev.wall_s = start.elapsed().as_secs_f64();
